@@ -514,6 +514,7 @@ package header
 //@   ensures implies(len(buf) <= 65536, oc16(uint64(result)) == oc16(uint64(initial) + wsum16(buf, 0, len(buf))))
 //@   ensures implies(len(buf) <= 65536, (result == 0) == (uint64(initial) + wsum16(buf, 0, len(buf)) == 0))
 //@   loop 1 invariant 0 <= i && i <= l && i & 1 == 0 && l & 1 == 0 && l <= len(buf) && len(buf) - l <= 1
+//@   loop 1 decreases l - i
 //@   loop 1 invariant implies(len(buf) <= 65536, uint64(v) == uint64(initial) + wsum16(buf, l, len(buf)) + wsum16(buf, 0, i))
 //@   apply fold32(v)
 
